@@ -23,6 +23,9 @@ import Proofs.DomWalkSafe
 import PM.RoundTrip
 import Proofs.RoundTripCore
 import Proofs.RoundTrip
+import Proofs.RoundTripWalk
+import Proofs.RoundTripDoc
+import Proofs.RoundTripSer
 namespace PM.C19
 open PM.Dom
 
@@ -952,6 +955,35 @@ theorem roundtrip_finish_partial (S : Schema) (cx : NodeCtx) (t : TypeId) (q : N
     cx.finishNode S false t = .ok (.elem t a [] cx.content) :=
   finishNode_plain S cx t q a hm hty hv ha hmk hnl hlast hnorm
 
+open PM PM.RoundTrip in
+/-- **export then import is the identity on mark-free documents**: for a schema given by its tables, `toDOM` functions
+    `D` and parse rules `R` in restricted form, every document that satisfies the decidable hypothesis `rtOk` (valid,
+    normalised, every node emitted as an element its first matching rule reads back with the same type and attributes,
+    text whitespace-normal for the mode in force) and carries no marks is serialised to HTML whose parse is the
+    document again.  Covers text, leaves (`br`, `hr`, `img`), nested blocks, lists (`normalize_list` moves nothing),
+    code blocks (`["pre", ["code", 0]]` with `preserve_whitespace: "full"`: the inner element is passed through, with
+    or without a mark rule for it), attributes (`h1`…`h6`, `img[src]`).
+    Partial with respect to the full statement only in the hypothesis `noMarks`. -/
+theorem roundtrip_markfree_partial (R : RParser) (D : ToDom) (doc : Node) (h : rtOk R D doc = true) (hnm : noMarks doc = true) :
+    roundTrip R D doc = .ok doc :=
+  roundtrip_markfree_core R D doc h hnm
+
+open PM PM.RoundTrip in
+/-- the two halves of it: the serializer's output, converted to the walk's abstract DOM with the oracle filled in, is
+    the canonical DOM of the document … -/
+theorem roundtrip_export_canonical_partial (R : RParser) (D : ToDom) (univ : List Mark) (kids : List Node) (opts : FromDom.Opts)
+    (pt : TypeId) (prev : Option (Node × String)) (hnm : noMarksList kids = true) (hok : kidsOk R D opts pt prev kids = true)
+    (hfn : fnormKids kids = true) (hch : chainOk kids = true) :
+    toDomList R.sel (Dom.serFrag (annotateList R.P.S D univ kids) [] []) = domOfList R D kids := by
+  rw [serFrag_nomarks R.P.S D univ kids [] hnm, List.nil_append]
+  exact ser_dom_list R D univ kids opts pt prev hnm hok hfn hch
+
+open PM PM.RoundTrip in
+/-- … and the walk over the canonical DOM rebuilds the document (whatever the tag of the fragment root) -/
+theorem roundtrip_import_canonical_partial (R : RParser) (D : ToDom) (doc : Node) (h : rtOk R D doc = true)
+    (hnm : noMarks doc = true) (rootTag : String) : DomWalk.parse R.P rootTag (domOfList R D doc.kids) = .ok doc :=
+  parse_canonical R D doc h hnm rootTag
+
 namespace RoundTripExamples
 open PM.RoundTrip PM.FromDom
 -- labelled tests of the whitespace rule (`textOk`): "foo", "a b" are normal; a leading space at the start of a textblock,
@@ -978,6 +1010,51 @@ example : (candsFrom "a" [("href", "x".toList), ("title", "t".toList)]
       (fun c => (c.1.idx, match c.1.ga with
         | .attrs (some a) => a
         | _ => [])) = [(2, [("href", "\"x\"")])] := by decide
+-- a small schema in the shape of the bundled one: doc (block+), paragraph (inline*), code_block (text*, no marks,
+-- whitespace "pre"), text, hard_break; marks em, strong, code
+private def mkN (name : String) (isText isInline isLeaf inl : Bool) (dfa : Array DfaState) (markSet : Option (List MarkTypeId)) : NodeType :=
+  { name := name, isText := isText, isInline := isInline, isLeaf := isLeaf, isAtom := isLeaf,
+    inlineContent := inl, isolating := false, defining := false, code := false,
+    dfa := dfa, markSet := markSet, attrs := [] }
+private def SB : Schema :=
+  { nodes := #[mkN "doc" false false false false #[⟨false, [(1, 1), (2, 1)]⟩, ⟨true, [(1, 1), (2, 1)]⟩] none,
+               mkN "paragraph" false false false true #[⟨true, [(3, 0), (4, 0)]⟩] none,
+               mkN "code_block" false false false true #[⟨true, [(3, 0)]⟩] (some []),
+               mkN "text" true true true false #[⟨true, []⟩] none,
+               mkN "hard_break" false true true false #[⟨true, []⟩] none],
+    marks := #[⟨"em", [], true, []⟩, ⟨"strong", [], true, []⟩, ⟨"code", [], true, []⟩], top := 0, textTy := 3 }
+open PM.DomWalk in
+private def RB : RParser :=
+  { P := { S := SB, G := fun _ => [], wsPre := fun t => t == 2,
+           tags := [{ mark := some (some 0) }, { mark := some (some 0) }, { mark := some (some 1) }, { mark := some (some 1) },
+                    { mark := some (some 2) }, { node := some (some 1) }, { node := some (some 2), preserveWs := .full },
+                    { node := some (some 4) }],
+           styles := [] },
+    sel := [{ tag := "i" }, { tag := "em" }, { tag := "strong" }, { tag := "b" }, { tag := "code" }, { tag := "p" },
+            { tag := "pre" }, { tag := "br" }] }
+open PM.Dom in
+private def DB : ToDom :=
+  { node := fun t _ => match t with
+      | 1 => .el "p".toList [] [.hole]
+      | 2 => .el "pre".toList [] [.el "code".toList [] [.hole]]
+      | 4 => .el "br".toList [] []
+      | _ => .str []
+    mark := fun m _ => match m.ty with
+      | 0 => some (.el "em".toList [] [.hole])
+      | 1 => some (.el "strong".toList [] [.hole])
+      | 2 => some (.el "code".toList [] [.hole])
+      | _ => none
+    spanning := fun _ => true }
+/-- doc(p("a b", br, "c"), pre("x\n  y\n")) -/
+private def docCode : Node :=
+  .elem 0 [] [] [.elem 1 [] [] [.text [97, 32, 98] [], .leaf 4 [] [], .text [99] []],
+                 .elem 2 [] [] [.text [120, 10, 32, 32, 121, 10] []]]
+-- **a code block with newlines and runs of spaces survives the round trip** (by the theorem, its hypothesis decided
+-- by the kernel; the walk itself is a well-founded recursion and does not reduce)
+example : rtOk RB DB docCode = true := by decide
+example : roundTrip RB DB docCode = .ok docCode := roundtrip_markfree_partial RB DB docCode (by decide) (by decide)
+-- the serialised HTML of that document
+example : String.ofList (Dom.renderAll (serializeDoc SB DB docCode)) = "<p>a b<br>c</p><pre><code>x\n  y\n</code></pre>" := by decide
 end RoundTripExamples
 
 end PM.C19
